@@ -1,5 +1,17 @@
 """C17 — work queue (src/work_queue.c, include/work_queue.h over include/mpsc_fifo.h)."""
+import os
+import sys
+
 from specs import sched_env, n_cases
+
+sys.path.insert(0, os.path.join(os.path.dirname(os.path.dirname(os.path.abspath(__file__))), "extract"))
+import wq_extract  # noqa: E402
+
+
+def pre(repo):
+    """translator step (facts no trace shows): 64-bit counters everywhere, unbounded wait loop"""
+    wq_extract.check(repo)
+
 
 # ------------------------------------------------------------------ C17 work queue
 
@@ -41,6 +53,7 @@ def gen_wq(rng, tier):
 
 SPEC = {
     "C17": {
+        "pre": pre,
         "parts": [{"name": "workqueue", "harness": "workqueue", "model": "WorkQueue", "gen": gen_wq}],
         "trusted_base": [
             "64-bit wrap-around of in_count/out_count not modelled (2^63 items unreachable)",
